@@ -5,7 +5,8 @@
      scapy.py      signal_field_line (~50), get_fmt (~35)
      wireshark.py  get_coorect_bits_for_signal (~30), create_dissect_signal (~41)
      fibex.py      create_signal_instance (~80, with fix C19_fibex_bit_position: BIT-POSITION is written with
-                   start_little=True), get_base_data_type (~128)
+                   start_little=True; with fix C19_fibex_mux_segment: minus the start of the PDU's segment),
+                   get_multiplexing_parts_infos (~113), get_base_data_type (~128)
      xls_common.py get_signal (~62) as used by csv.py dump (~85), option xlsMotorolaBitFormat
      json.py       dump, jsonExportCanard branch (~52-66)
 
@@ -111,6 +112,21 @@ Definition fibex_positions (f : fx_field) : list Z :=
   map (fun j => if fx_hilo f then flip (fx_pos f) - (fx_len f - 1 - j)
                 else flip (fx_pos f + fx_len f - 1 - j)) (msf (fx_len f)).
 Definition fibex_reads_type (f : fx_field) : bool * bool := (fx_kind f =? 1, fx_kind f =? 2).   (* signed, float *)
+
+(* multiplexed frames (fix C19_fibex_mux_segment): the signals of the dynamic part / of the static part live in
+   PDUs of their own; get_multiplexing_parts_infos computes the SEGMENT-POSITION as the range of whole bytes
+   the part's signals touch, create_signal_instance writes positions counted from the segment's start.
+   T-FIBEX: frame position = SEGMENT-POSITION/BIT-POSITION + SIGNAL-INSTANCE/BIT-POSITION. *)
+Definition seg_step (acc : Z * Z) (s : signal) : Z * Z :=
+  let first_bit := s_start s / 8 * 8 in
+  let end_pos := ((s_start s + s_size s - 1) / 8 + 1) * 8 in
+  ((if (fst acc =? -1) || (first_bit <? fst acc) then first_bit else fst acc),
+   (if (snd acc =? -1) || (snd acc <? end_pos) then end_pos else snd acc)).
+Definition seg_range (init : Z * Z) (sigs : list signal) : Z * Z := fold_left seg_step sigs init.
+Definition fibex_emit_in (pdu_start : Z) (s : signal) : fx_field :=
+  let f := fibex_emit s in mkFx (fx_pos f - pdu_start) (fx_hilo f) (fx_len f) (fx_kind f) (fx_width f).
+Definition fibex_in_frame (segment_pos : Z) (f : fx_field) : fx_field :=
+  mkFx (segment_pos + fx_pos f) (fx_hilo f) (fx_len f) (fx_kind f) (fx_width f).
 
 (* ---------- CSV (xls_common.get_signal) ---------- *)
 (* option: 0 "msb", 1 "msbreverse" (default), anything else "lsb" *)
